@@ -457,6 +457,7 @@ func runC10(env *Env) {
 	boundaryReentryAfterInterruption(env, rep, "C10-flows", 4)
 	boundaryTwoHosts(env, rep, "C10-flows", 6)
 	boundaryLateAnswerAfterReentry(env, rep, "C10-flows", 4)
+	boundaryAnswerRightBehindEvent(env, rep, "C10-flows", 40)
 	env.WriteCases(rep, "", "Corr.C10corr", "list (nat * nat) * list nat * nat * list nat * nat", items, "c10_mismatches")
 	env.WriteReport(rep)
 }
@@ -876,5 +877,51 @@ func boundaryLateAnswerAfterReentry(env *Env, rep *Report, key string, rounds in
 			rep.Violate(key, cs, problem+"; log: "+logString(in.Log()))
 		}
 		in.Close()
+	}
+}
+
+// boundaryAnswerRightBehindEvent: a non-interrupting boundary event fires and the task is answered right behind it (0
+// to 150 microseconds later): the exception flow continues once, the normal flow once, and the instance completes
+// (the listener that takes the place of the one that left is withdrawn with the activity, wherever it is just then).
+func boundaryAnswerRightBehindEvent(env *Env, rep *Report, key string, rounds int) {
+	sh := c10Shape{"one boundary event", false, []bool{false}, []int{0}, false}
+	xmlText := sh.prog().XML(`<bpmn:signal id="s0" name="s0"/>`)
+	bad, first := 0, ""
+	for r := 0; r < rounds; r++ {
+		defs, err := ParseDefs(xmlText)
+		must(err)
+		in, err := StartInst(defs, InstOpt{})
+		must(err)
+		in.Answer("P", tmoStep)
+		t := in.WaitTask("H", tmoStep)
+		ok := t != nil && in.WaitUntil(tmoStep, func(l []Ev) bool { return countEv(l, "listening", "B0") >= 1 })
+		if ok {
+			in.Signal("s0")
+			time.Sleep(time.Duration(r%4) * 50 * time.Microsecond)
+			t.Do()
+			for in.Answer("X0", 100*time.Millisecond) {
+			}
+			in.Answer("N", tmoStep/4)
+			for in.Answer("X0", 20*time.Millisecond) {
+			}
+			ok = in.WaitCease(tmoStep / 4)
+		}
+		if !ok {
+			bad++
+			if first == "" {
+				first = fmt.Sprintf("round %d: log: %s", r, tailStr(logString(in.Log()), 1200))
+			}
+		}
+		in.Close()
+		if bad >= 3 {
+			break
+		}
+	}
+	cs := fmt.Sprintf("task with a non-interrupting boundary event: the event, and the answer 0..150 microseconds behind it, %d instances", rounds)
+	rep.Evaluations++
+	rep.Nontrivial++
+	rep.Count("answer_right_behind_event")
+	if bad > 0 {
+		rep.Violate(key, cs, fmt.Sprintf("%d instances did not complete; first: %s", bad, first))
 	}
 }
